@@ -70,6 +70,16 @@ pub struct TxSpec {
     pub items: Vec<Item>,
     /// Labels given to the `Out` items of this transaction, in order (None = unlabeled).
     pub labels: Vec<Option<&'static str>>,
+    /// Instead of new items: the transaction of chain 0 that created the note with this label, mined
+    /// again here (same txid, same outputs) - what a reorg does to a transaction that stays valid.
+    /// Its notes get new ground-truth records (new height and tree positions; for Sapling a new
+    /// nullifier, which depends on the position).
+    pub remine_of: Option<&'static str>,
+}
+
+/// The transaction that created `label` on chain 0, mined again.
+pub fn remine(label: &'static str) -> TxSpec {
+    TxSpec { remine_of: Some(label), ..Default::default() }
 }
 
 pub fn tx(items: Vec<(Option<&'static str>, Item)>) -> TxSpec {
@@ -129,6 +139,8 @@ pub struct NoteInfo {
     pub nf: Nf,
     /// note commitment (cmu / cmx), 32 bytes
     pub cm: [u8; 32],
+    /// for the record of a re-mined note: the id of the record of its first mining
+    pub remine_of: Option<usize>,
 }
 
 #[derive(Clone, Debug)]
@@ -323,6 +335,20 @@ impl Universe {
         &self.notes[self.labels[label]]
     }
 
+    /// Ids of the note records created by the transactions of the given blocks of a chain (a
+    /// transaction mined on several branches has one record per place it is mined at).
+    pub fn notes_created_in(&self, chain: usize, heights: impl Iterator<Item = u32>) -> std::collections::BTreeSet<usize> {
+        let mut r = std::collections::BTreeSet::new();
+        for h in heights {
+            if let Some(b) = self.chains[chain].blocks.get(&h) {
+                for t in &b.txs {
+                    r.extend(t.created.iter().copied());
+                }
+            }
+        }
+        r
+    }
+
     pub fn source(&self, chain: usize) -> ChainSource<'_> {
         ChainSource { chain: &self.chains[chain] }
     }
@@ -341,11 +367,50 @@ impl<'a> Gen<'a> {
         for (ti, t) in spec.txs.iter().enumerate() {
             let mut ctx = CompactTx::default();
             let mut txid = [0u8; 32];
-            self.rng.fill_bytes(&mut txid);
-            ctx.txid = txid.to_vec();
-            ctx.index = (ti + 1) as u64; // index 0 is the coinbase by convention
             let mut created = vec![];
             let mut spent = vec![];
+            if let Some(label) = t.remine_of {
+                // copy the compact transaction from chain 0 and record its notes at their new place
+                let first = u.notes[*u.labels.get(label).unwrap_or_else(|| panic!("unknown note label {label}"))].clone();
+                let (orig_ctx, orig_rec) = {
+                    let b = &u.chains[0].blocks[&first.height];
+                    let i = b.txs.iter().position(|r| r.txid == first.txid).expect("transaction of the labelled note");
+                    (b.cb.vtx[i].clone(), b.txs[i].clone())
+                };
+                ctx = orig_ctx;
+                ctx.index = (ti + 1) as u64;
+                txid = orig_rec.txid;
+                spent = orig_rec.spent.clone();
+                for oid in &orig_rec.created {
+                    let o = u.notes[*oid].clone();
+                    let base = match o.pool {
+                        Pool::Sapling => sap.tree_size(),
+                        Pool::Orchard => orc.tree_size(),
+                        Pool::Ironwood => iron.tree_size(),
+                    };
+                    let position = base + o.output_index as u64;
+                    let nf = match (&o.nf, o.pool, o.owner) {
+                        (Nf::Sapling(old), Pool::Sapling, owner) if owner != Owner::Foreign => {
+                            let dfvk = self.ufvk(owner).sapling().unwrap().clone();
+                            let zscope = if matches!(o.scope, Scope::Internal) { zip32::Scope::Internal } else { zip32::Scope::External };
+                            let cod: sapling::note_encryption::CompactOutputDescription = (&ctx.outputs[o.output_index]).try_into().expect("compact output");
+                            let pivk = sapling::keys::PreparedIncomingViewingKey::new(&dfvk.to_ivk(zscope));
+                            match sapling::note_encryption::try_sapling_compact_note_decryption(&pivk, &cod, sapling::note_encryption::Zip212Enforcement::On) {
+                                Some((note, _)) => Nf::Sapling(note.nf(&dfvk.to_nk(zscope), position)),
+                                None => Nf::Sapling(*old),
+                            }
+                        }
+                        (other, _, _) => other.clone(),
+                    };
+                    let id = u.notes.len();
+                    u.notes.push(NoteInfo { id, label: None, height, position, nf, remine_of: Some(o.id), ..o });
+                    created.push(id);
+                }
+            } else {
+                self.rng.fill_bytes(&mut txid);
+                ctx.txid = txid.to_vec();
+                ctx.index = (ti + 1) as u64; // index 0 is the coinbase by convention
+            }
             let mut li = 0usize;
             for item in &t.items {
                 match item {
@@ -405,7 +470,7 @@ impl<'a> Gen<'a> {
                             Pool::Orchard => ctx.actions[output_index].cmx.clone().try_into().unwrap(),
                             Pool::Ironwood => ctx.ironwood_actions[output_index].cmx.clone().try_into().unwrap(),
                         };
-                        u.notes.push(NoteInfo { id, label, owner: *owner, pool: *pool, scope: *scope, value: *value, height, txid, output_index, position, nf, cm });
+                        u.notes.push(NoteInfo { id, label, owner: *owner, pool: *pool, scope: *scope, value: *value, height, txid, output_index, position, nf, cm, remine_of: None });
                         if let Some(l) = label {
                             assert!(u.labels.insert(l, id).is_none(), "duplicate label {l}");
                         }
